@@ -93,7 +93,7 @@ pub fn cases(parser: &str, quick: bool) -> Vec<(String, Vec<u8>)> {
     let mut v: Vec<(String, Vec<u8>)> = vec![];
     // 10^7 strings for the wire parsers in thorough; the configuration family multiplies every string by its
     // placements (section, value, host, route, include), so it stays at 6
-    let l = if quick { 5 } else if parser == "config" { 6 } else { 7 };
+    let l = if quick { if parser == "config" { 5 } else { 6 } } else if parser == "config" { 6 } else { 7 };
     match parser {
         "http-request" | "http-response" => {
             let alpha: Vec<&[u8]> = vec![b"G", b"/", b" ", b":", b"\r", b"\n", b"1", "é".as_bytes(), &[0xff], b"H"];
@@ -547,7 +547,7 @@ pub fn run(mut cx: Ctx) -> ! {
             cx.stats.merge(p);
         }
     }
-    cx.bound("short_string_symbols", if cx.quick() { 5 } else { 7 });
+    cx.bound("short_string_symbols", if cx.quick() { 6 } else { 7 });
     cx.bound("short_string_symbols_config", if cx.quick() { 5 } else { 6 });
     cx.bound("allocation_bound", format!("{} x input + {} bytes of live allocations", SOFT_FACTOR, SOFT_CONST));
     cx.assume("JSON and config parsers take &str: inputs that are not UTF-8 cannot be handed to them");
